@@ -207,7 +207,11 @@ func firstDiff(a, b []byte) int {
 // light: the automaton has so many root-to-leaf paths that GobEncode (which
 // walks every path) takes seconds: encode only where the property needs it.
 func roundTrip(c *engine.Ctx, workload, callKey string, set *refdawg.Set, alpha []byte, rg refdawg.Rand, idx int, nQueries int, light bool) bool {
-	d, err, pi := dawgx.Build(c, callKey+"|New", set.Words)
+	build := dawgx.Build
+	if light && set.Len() >= 50000 {
+		build = dawgx.BuildSlowOK // the construction alone is tens of CPU-seconds here (C12 judges construction, on smaller lists)
+	}
+	d, err, pi := build(c, callKey+"|New", set.Words)
 	if pi != nil || err != nil || d == nil {
 		c.Obs("builds_failed_not_judged_here(C12)", 1)
 		return true
@@ -438,7 +442,7 @@ func boundaries() []boundary {
 	// more than 32768 / 65536 nodes WITH heavy sharing (dense random sets of short words over a small alphabet: the
 	// late layers of the automaton are shared by thousands of parents, so whatever node sits at an index such as 32768
 	// or 65536 is likely to have several parents and successors)
-	for _, sp := range [][3]int{{100000, 10, 5}, {250000, 11, 5}} {
+	for _, sp := range [][3]int{{100000, 10, 5}, {160000, 11, 5}} {
 		sp := sp
 		bs = append(bs, boundary{fmt.Sprintf("%d-fixed-pseudo-random-words-of-length-%d-over-%d-letters(shared nodes beyond index 32768)", sp[0], sp[1], sp[2]), func() [][]byte {
 			rg := engine.NewRng(uint64(4242 + sp[0]))
